@@ -54,6 +54,13 @@ func (env *Env) GetEvalEnv() *EvalEnv {
 	}
 }
 
+// UpdateEvalEnv refreshes a handle that was created by GetEvalEnv,
+// so it can run the functions that were added to env after its creation.
+func (env *Env) UpdateEvalEnv(evalEnv *EvalEnv) {
+	evalEnv.nativeFuncs = env.nativeFuncs
+	evalEnv.userFuncs = env.userFuncs
+}
+
 // AddNativeMethod binds `$typeName.$methodName` symbol with f.
 // A typeName should be fully qualified, like `github.com/user/pkgname.TypeName`.
 // It method is defined only on pointer type, the typeName should start with `*`.
